@@ -398,7 +398,7 @@ def run_corpus(nevrun, tmp, corpus_dir):
         if o is None or x is None:
             continue
         ok = o["kind"] not in ("CRASH",) and same(o, x)
-        res.append({"case": cid, "key": j.get("key", cid), "ok": ok, "expected": short(x), "real": short(o),
+        res.append({"case": cid, "key": j.get("key", cid), "ok": ok, "note": j.get("note", ""), "expected": short(x), "real": short(o),
                     "source": srcs.get(cid + ".o", ""), "ast": j["ast"], "log": o["log"], "property": j.get("property", "C02")})
     return res
 
